@@ -250,7 +250,7 @@ class FcpV2Transformer(Transformer):
 
         self.source = self.filesystem_proxy.read(self.filename)
         self.parser_context.set_module(self.filename.name, self.source)
-        self.error_logger.add_source(str(self.filename), self.source)
+        self.error_logger.add_source(str(self.filename.resolve()), self.source)
 
     @v_args(tree=True)  # type: ignore
     def preamble(self, tree: ParseTree) -> Result[Nil, FcpError]:
@@ -437,7 +437,7 @@ class FcpV2Transformer(Transformer):
 
         try:
             self.error_logger.add_source(filename.name, source)
-            self.error_logger.add_source(str(filename), source)
+            self.error_logger.add_source(str(filename.resolve()), source)
             fcp_ast = fcp_parser.parse(source)
         except UnexpectedInput as e:
             return _lark_error(self.error_logger, filename, source, e)
@@ -586,7 +586,7 @@ def _get_fcp(
 ) -> Result[v2.FcpV2, FcpError]:
     source = filesystem_proxy.read(filename)
     logger.add_source(filename.name, source)
-    logger.add_source(str(filename), source)
+    logger.add_source(str(filename.resolve()), source)
     try:
         fcp_ast = fcp_parser.parse(source)
     except UnexpectedInput as e:
